@@ -6,6 +6,7 @@ import (
 	"fmt"
 	"go/constant"
 	"go/types"
+	"golang.org/x/tools/go/ssa"
 	"os"
 	"regexp"
 	"sort"
@@ -29,6 +30,7 @@ type Output struct {
 	Tags     string     `json:"tags"`
 	LoadTime float64    `json:"load_time_s"`
 	Funcs    []*FuncOut `json:"funcs"`
+	Trusted  []string   `json:"trusted_contracts,omitempty"`
 	Error    string     `json:"error,omitempty"`
 }
 
@@ -44,6 +46,7 @@ func main() {
 	par := flag.Int("j", 16, "parallel solver processes")
 	scratch := flag.String("scratch", "", "scratch dir for .smt2 files")
 	replayDir := flag.String("replaydir", "", "write replay tests for failed obligations into this directory")
+	cutsOf := flag.String("cuts", "", "print the loop heads (cut points) of this function key and exit")
 	dump := flag.String("dump", "", "dump VCs of obligations matching this regexp to scratch and keep them")
 	flag.Parse()
 
@@ -70,6 +73,35 @@ func main() {
 		os.Exit(2)
 	}
 	res.LoadTime = time.Since(t0).Seconds()
+	if *cutsOf != "" {
+		fn := eng.funcs[*cutsOf]
+		if fn == nil {
+			fmt.Println("no such function")
+			os.Exit(2)
+		}
+		tmp := &FuncCtx{eng: eng, cutInfo: map[*ssa.Function]*CutInfo{}}
+		ci := tmp.cuts(fn)
+		type hh struct {
+			ord int
+			b   *ssa.BasicBlock
+		}
+		var hs []hh
+		for b, o := range ci.heads {
+			hs = append(hs, hh{o, b})
+		}
+		sort.Slice(hs, func(i, j int) bool { return hs[i].ord < hs[j].ord })
+		for _, h := range hs {
+			pos := ""
+			for _, in := range h.b.Instrs {
+				if in.Pos().IsValid() {
+					pos = eng.fset.Position(in.Pos()).String()
+					break
+				}
+			}
+			fmt.Printf("loop %d: block %d comment=%q body=%d blocks first=%s\n", h.ord, h.b.Index, h.b.Comment, len(ci.body[h.b]), pos)
+		}
+		os.Exit(0)
+	}
 	if *scratch == "" {
 		d, _ := os.MkdirTemp("/var/tmp", "govc.")
 		*scratch = d
@@ -102,6 +134,10 @@ func main() {
 			continue
 		}
 		if len(wantProps) > 0 && !contractServes(ct, wantProps) {
+			continue
+		}
+		if ct.Trusted != "" {
+			res.Trusted = append(res.Trusted, ct.FuncKey+": "+ct.Trusted)
 			continue
 		}
 		todo = append(todo, ct)
